@@ -275,6 +275,33 @@ def cauchy_decrease(s, g, hess_prod, xl, xu, delta):
                 mechanism=mech, q=q, qc=qc, g=g, s=s, sc=sc, delta=delta)
     elif rel > HELD:
         col.gray += 1
+    # Linear model (H = 0 exactly): the model decreases monotonically along
+    # the whole projected-gradient PATH, whose end point is the generalised
+    # Cauchy point; the active-set truncated CG follows exactly that path.
+    n = g.size
+    if all(not np.any(_f(hess_prod(e))) for e in np.eye(n)):
+        sp = refc.path_end_linear(g, _f(xl), _f(xu), delta)
+        qp = float(g @ sp)
+        if qp < 0:
+            col.tags.add("cauchy_path_linear")
+            mag2 = float(np.abs(g) @ np.abs(s) + np.abs(g) @ np.abs(sp))
+            rel2 = (q - qp) / mag2 if mag2 > 0 else 0.0
+            # the solver's absolute stopping floor applied after a restart
+            # on a bound (same mechanism as at the origin): the part of the
+            # gradient that is still free at s is below the floor
+            lo = np.minimum(_f(xl), 0.0)
+            hi = np.maximum(_f(xu), 0.0)
+            free_s = ((s > lo) | (g < 0.0)) & ((s < hi) | (g > 0.0))
+            floor = float(g[free_s] @ g[free_s]) <= 10.0 * EPS * n * max(
+                1.0, float(np.linalg.norm(g)))
+            col.zone("C16", "cauchy_path_decrease", max(rel2, 0.0),
+                     f"tangential_byrd_omojokun (linear model): q(s)={q!r} "
+                     f"is above the value {qp!r} at the end of the "
+                     f"projected-gradient path (gap {rel2:.3g} relative); "
+                     f"|g_free(s)|^2={float(g[free_s] @ g[free_s]):.3g}",
+                     mechanism="tcg_absolute_floor" if floor
+                     else "tangential_byrd_omojokun", g=g, s=s, sp=sp,
+                     delta=delta)
     return True
 
 
@@ -549,6 +576,25 @@ def fuzz_inputs(rng):
         if rng.random() < 0.5:
             hd[:] = 0.0
         h = np.diag(hd)
+        if n >= 3 and rng.random() < 0.5:
+            # variant: two or more bounds are reached at exactly the same
+            # step size INSIDE the ball, while other variables stay free (the
+            # second tied bound enters the working set through a zero step)
+            tags.append("bound_ties_inside")
+            g = rng.choice([-2.0, -1.0, -0.5, 0.5, 1.0, 2.0], n)
+            t = float(rng.choice([0.125, 0.25, 0.5]))
+            xl = np.full(n, -np.inf)
+            xu = np.full(n, np.inf)
+            tied = rng.choice(n, size=int(rng.integers(2, n)), replace=False)
+            for i in tied:
+                if g[i] < 0:
+                    xu[i] = t * abs(g[i])
+                else:
+                    xl[i] = -t * abs(g[i])
+            delta = float(rng.choice([1.0, 2.0, 4.0])) * t * \
+                float(np.linalg.norm(g)) * 2.0
+            if rng.random() < 0.7:
+                h = np.zeros((n, n))
     if n >= 2 and rng.random() < 0.1:
         # structured family: the Hessian only acts (with negative curvature)
         # on directions orthogonal to the gradient, as the rank-deficient
